@@ -50,6 +50,8 @@ def env_jobs(ctx):
                         del judged["variation"]
                 cx = {"env": {"X": vals["ctx"]}} if "ctx" in vals else {"env": {"CX": "1"}}
                 stage = {"task": "t"}
+                if order == "dec":
+                    stage["name"] = "explicitly-named-stage"          # TASK_NAME carries the TASK's name, whatever the stage is called
                 if "stage" in vals:
                     stage["env"] = {"X": vals["stage"]}
                 doc = {"contexts": {"cx": cx}, "tasks": {"t": task}, "pipelines": {"p": [stage]}}
@@ -69,27 +71,28 @@ def dir_jobs(ctx, first_id, workdir):
             for mode in (["stage"] if "stage" in sub else ["direct", "stage"]):
                 # rel: the task's / stage's dir written as a RELATIVE path: it is relative to the directory taskctl was started in
                 # (also when the context has a dir of its own)
-                for rel in ((False, True) if ("task" in sub or "stage" in sub) else (False,)):
+                # "dotdot": the task's dir is a template action followed by `..` (the parent of a variable's value): resolved after rendering
+                for rel in ((False, True) + (("dotdot",) if "task" in sub else ()) if ("task" in sub or "stage" in sub) else (False,)):
                     jid = first_id + len(jobs)
                     proj = os.path.join(workdir, "cli", str(jid), "proj")
                     start = proj if where == "root" else proj + "/sub"
                     pr = 'echo "%s:$(/bin/pwd)" >> "$PROJ/out"'        # the external pwd: the directory the command's processes really run in
                     task = {"command": [pr % "cmd"], "before": [pr % "before"], "after": [pr % "after"], "condition": pr % "cond", "context": "cx"}
                     if "task" in sub:
-                        task["dir"] = "{{.RelT}}" if rel else "{{.PD}}/td"
+                        task["dir"] = "{{.PD}}/../proj/td" if rel == "dotdot" else "{{.RelT}}" if rel else "{{.PD}}/td"
                     cx = {"env": {"CX": "1"}}
                     if "ctx" in sub:
                         cx["dir"] = proj + "/cd"
                     stage = {"task": "t"}
                     if "stage" in sub:
-                        stage["dir"] = "sd" if rel else proj + "/sd"
+                        stage["dir"] = "sd" if rel is True else proj + "/sd"
                     doc = {"contexts": {"cx": cx}, "tasks": {"t": task}, "pipelines": {"p": [stage]}}
                     files = {("taskctl.yaml" if where == "sub-default" else "cfg.json"): clilib.jcfg(doc), "td/x": "", "cd/x": "", "sd/x": "", "sub/x": "", "sub/td/x": "", "sub/sd/x": ""}
                     cfgp = "cfg.json" if where == "root" else "../cfg.json"
                     # "sub-default": no -c; taskctl.yaml is discovered in the parent directory (JSON is YAML)
                     jobs.append({"id": jid, "files": files, "argv": ([] if where == "sub-default" else ["-c", cfgp]) + ["--raw", "--set", "PD=" + proj, "--set", "RelT=td", "t" if mode == "direct" else "p"],
-                                 "cwd": "" if where == "root" else "sub", "keep": ["out"], "kind": "dir", "sub": list(sub) + (["relative"] if rel else []), "where": where, "mode": mode,
-                                 "dirs": {"stage": (start + "/sd" if rel else proj + "/sd") if "stage" in sub else "", "task": (start + "/td" if rel else proj + "/td") if "task" in sub else "",
+                                 "cwd": "" if where == "root" else "sub", "keep": ["out"], "kind": "dir", "sub": list(sub) + (["dotdot"] if rel == "dotdot" else ["relative"] if rel else []), "where": where, "mode": mode,
+                                 "dirs": {"stage": (start + "/sd" if rel is True else proj + "/sd") if "stage" in sub else "", "task": (start + "/td" if rel is True else proj + "/td") if "task" in sub else "",
                                           "ctx": proj + "/cd" if "ctx" in sub else "", "start": start}})
     return jobs
 
